@@ -240,6 +240,15 @@ Theorem C01_source_tdevice_cost : forall n su ef ti to tr te c (s p : list R), l
   TDevice_cost (A:=R) n su ef ti to tr te c s p = tdev_cost (tq su ef ti to tr te c) s p.
 Proof. exact gen_tdevice_cost. Qed.
 
+(* SDevice.deriv regenerated from sdevice.py (Gen/Storage.v, translator/sdevice_tx.py: the accumulation loop of deep_damage_at_deriv over the rows
+   of the stashed sustainment matrix - checked to be refreshed by the sustainment setter -, the np.hstack shifts of the flip-flop term)
+   IS the model marginal cost that C01_sdevice proves to be the gradient, for every horizon length *)
+From DK.Gen Require Import Storage.
+From DK.Proofs Require Import GenStorage.
+Theorem C01_source_sdevice_deriv : forall n c1 c2 c3 cap dep st e su (s p : list R), length s = n -> length p = n ->
+  SDevice_deriv (A:=R) n c1 c2 c3 cap dep st e su s p = sdev_deriv (sq_of c1 c2 c3 cap dep st e su) s p.
+Proof. exact gen_sdevice_deriv. Qed.
+
 (* ---- the preference-function combinators regenerated from functions.py on every run (Gen/Functions.v, translator/functions_tx.py:
         NullFunction, SumFunction, ReflectedFunction, InnerSumFunction, X2D, Poly2D, Poly2DOffset over ABSTRACT operands) are the nodes
         of the function AST that C01_function_ast_every_composition is about: __call__ = feval and deriv = fderiv of the node ---- *)
